@@ -14,6 +14,7 @@ Equality of two translated expressions is decided exactly by
 import ast
 import math
 
+import numpy as np
 import sympy as sp
 
 from .model import AnalysisError, Fn, Mod, Cls, dotted
@@ -75,6 +76,28 @@ def num(x):
 
 def is_sym(x):
     return isinstance(x, sp.Basic)
+
+
+def is_arr(x):
+    return isinstance(x, np.ndarray)
+
+
+def as_arr(x):
+    """component model of a tensor: numpy object array of sympy expressions"""
+    if isinstance(x, np.ndarray):
+        return x
+    if isinstance(x, (list, tuple)):
+        return np.array([as_arr(i) if isinstance(i, (list, tuple, np.ndarray)) else _s(i) for i in x], dtype=object)
+    a = np.empty((), dtype=object)
+    a[()] = _s(x)
+    return a
+
+
+def arr_map(f, a):
+    out = np.empty(a.shape, dtype=object)
+    for idx in np.ndindex(a.shape):
+        out[idx] = f(a[idx])
+    return out
 
 
 IDENTITY_CALLS = {
@@ -322,6 +345,8 @@ class Translator:
             return self.comprehension(n, env, mod, depth)
         if isinstance(n, ast.Subscript):
             obj = self.eval(n.value, env, mod, depth)
+            if is_arr(obj):
+                return self.arr_index(obj, n.slice, env, mod, depth)
             if is_sym(obj) and self.hooks.get("subscript"):
                 return self.hooks["subscript"](self, obj, None, n)
             if isinstance(n.slice, ast.Slice):
@@ -354,6 +379,26 @@ class Translator:
         if isinstance(n, ast.Starred):
             raise Unmodelled("starred expression")
         raise Unmodelled("expression kind %s: %s" % (type(n).__name__, ast.unparse(n)[:60]))
+
+    def arr_index(self, obj, sl, env, mod, depth):
+        def one(e):
+            if isinstance(e, ast.Constant) and e.value is Ellipsis:
+                return Ellipsis
+            if isinstance(e, ast.Constant) and e.value is None:
+                return None
+            if isinstance(e, ast.Slice):
+                f = lambda x: _pyint(self.eval(x, env, mod, depth)) if x is not None else None
+                return slice(f(e.lower), f(e.upper), f(e.step))
+            v = self.eval(e, env, mod, depth)
+            if v is None:
+                return None
+            return _pyint(v)
+
+        idx = tuple(one(e) for e in sl.elts) if isinstance(sl, ast.Tuple) else one(sl)
+        r = obj[idx]
+        if isinstance(r, np.ndarray) and r.shape == ():
+            return r[()]
+        return r
 
     def comprehension(self, n, env, mod, depth):
         out = []
@@ -619,7 +664,12 @@ class Translator:
 
     def numeric_call(self, d, last, args, kwargs, n):
         a0 = args[0] if args else None
+        r = self.array_call(d, last, args, kwargs, n)
+        if r is not NotImplemented:
+            return r
         if d in IDENTITY_CALLS or last in ("cast", "convert_to_tensor", "identity", "stop_gradient", "asarray"):
+            if isinstance(a0, (list, tuple)) and (last == "constant" or self.hooks.get("stack_as_array")) and a0 and all(is_sym(x) or isinstance(x, (int, float)) for x in a0):
+                return as_arr(a0)
             return a0 if is_sym(a0) or not isinstance(a0, (int, float)) else num(a0)
         if last == "complex" and len(args) == 2:
             return _s(args[0]) + sp.I * _s(args[1])
@@ -662,8 +712,79 @@ class Translator:
                 return r
         raise Unmodelled("numeric call %s not modelled" % d)
 
+    def array_call(self, d, last, args, kwargs, n):
+        """tensor-shaped operations on the component model (numpy object arrays)"""
+        a0 = args[0] if args else None
+        axis = kwargs.get("axis", None)
+
+        def ax(default=None, pos=1):
+            v = axis if axis is not None else (args[pos] if len(args) > pos else default)
+            return None if v is None else _pyint(v)
+
+        if last in ("reduce_sum", "sum") and is_arr(a0):
+            k = ax(None)
+            r = np.sum(a0, axis=k)
+            return r[()] if isinstance(r, np.ndarray) and r.shape == () else r
+        if last == "expand_dims":
+            return np.expand_dims(as_arr(a0), ax(-1))
+        if last in ("concat", "concatenate") and isinstance(a0, (list, tuple)):
+            return np.concatenate([as_arr(x) for x in a0], axis=ax(0))
+        if last == "stack" and isinstance(a0, (list, tuple)) and (kwargs.get("axis") is not None or any(is_arr(x) for x in a0) or self.hooks.get("stack_as_array")):
+            return np.stack([as_arr(x) for x in a0], axis=ax(0))
+        if last == "eye":
+            k = _pyint(a0)
+            out = np.empty((k, k), dtype=object)
+            for i in range(k):
+                for j in range(k):
+                    out[i, j] = sp.Integer(1 if i == j else 0)
+            return out
+        if not any(is_arr(x) for x in args):
+            return NotImplemented
+        if last in ("zeros_like", "ones_like"):
+            v = sp.Integer(0 if last == "zeros_like" else 1)
+            return arr_map(lambda _: v, a0)
+        if last in UNARY_FUNCS:
+            return arr_map(UNARY_FUNCS[last], a0)
+        if last == "norm":
+            return sp.sqrt(np.sum(a0 * a0, axis=ax(-1)))
+        if d in IDENTITY_CALLS or last in ("cast", "convert_to_tensor", "identity", "stop_gradient", "asarray"):
+            return a0
+        if last == "where":
+            c = self.truth(args[0], n)
+            return args[1] if c else args[2]
+        if last in ("einsum",):
+            expr = args[0]
+            return np.einsum(expr, *[as_arr(x) for x in args[1:]])
+        if last in ("matmul", "dot"):
+            return np.dot(as_arr(args[0]), as_arr(args[1]))
+        if last == "transpose":
+            perm = kwargs.get("perm", args[1] if len(args) > 1 else None)
+            return np.transpose(a0, [_pyint(x) for x in perm] if perm is not None else None)
+        if last == "reshape":
+            shp = args[1]
+            return np.reshape(a0, [_pyint(x) for x in shp])
+        if last == "complex" and len(args) == 2:
+            return as_arr(args[0]) + sp.I * as_arr(args[1])
+        raise Unmodelled("array call %s not modelled" % d)
+
     # ------------------------------------------------------------ operators
     def binop(self, op, a, b):
+        if is_arr(a) or is_arr(b):
+            A = a if is_arr(a) else _s(a)
+            B = b if is_arr(b) else _s(b)
+            if isinstance(op, ast.Add):
+                return A + B
+            if isinstance(op, ast.Sub):
+                return A - B
+            if isinstance(op, ast.Mult):
+                return A * B
+            if isinstance(op, ast.Div):
+                return A / B
+            if isinstance(op, ast.Pow):
+                return A ** B
+            if isinstance(op, ast.MatMult):
+                return np.dot(A, B)
+            raise Unmodelled("array operator %s" % type(op).__name__)
         if isinstance(a, (list, tuple)) or isinstance(b, (list, tuple)):
             if isinstance(op, ast.Add) and type(a) == type(b):
                 return a + b
